@@ -16,10 +16,14 @@ ID = "C18"
 LEVEL = "exploration"
 TECHNIQUE = "bounded-exhaustive enumeration of all DAG pipelines x outputs x argument cuts, lazy vs reference evaluator, task graph vs reference dependency edges"
 RULE = ("the pipelines, outputs and argument combinations of C02 (G-DAG N<=2 decorated + N=3 quick; thorough adds the N=4 single-output family) with lazy=True, "
-        "with and without an active construct_dag(), evaluate() called three times, and every ordered pair of requested outputs "
+        "with and without an active construct_dag() (and, once per pipeline, right after a construct_dag() block that was left through an exception), evaluate() called three times, and every ordered pair of requested outputs "
         "evaluated in both orders on one lazy pipeline - as two plain requests, inside ONE construct_dag() block, and with cache=True on every function. non-trivial = distinct (pipeline, output, cut, mode) with >= 2 functions on the dependency path")
 ASSUMPTIONS = c02.ASSUMPTIONS + ["task-graph nodes whose func is not a PipeFunc are output pickers and are contracted"]
 BUDGET = {"quick": 70.0, "thorough": 900.0}
+
+
+class _Abort(Exception):
+    pass
 
 
 def _quiet(fn, *a, **k):
@@ -47,6 +51,18 @@ def check_lazy(spec, out, kw, mode):  # noqa: C901, PLR0912
     res = []
     out_t = tuple(out) if isinstance(out, (list, tuple)) else out
     base = {"deco": spec.get("deco"), "mode": mode, "out_is_tuple": isinstance(out_t, tuple)}
+    if mode == "after-aborted-dag":
+        # a construct_dag() block that is left through an exception must leave nothing behind: afterwards a NEW pipeline with
+        # the same names but other function bodies (tags ...v2) is evaluated outside any dag
+        try:
+            with construct_dag():
+                _quiet(gen_dag.build(spec, lazy=True), out_t, **kw)
+                raise _Abort  # noqa: TRY301
+        except _Abort:
+            pass
+        except Exception:  # noqa: BLE001  (a failing request is reported by the plain modes)
+            return res
+        spec = {**spec, "funcs": [{**f, "tag": f.get("tag", f["name"]) + "v2"} for f in spec["funcs"]]}
     try:
         ref = gen_dag.ref_eval(spec, out_t, kw)
     except gen_dag.NotComputable:
@@ -169,9 +185,12 @@ def run_spec(spec, acc):
         return  # construction failures are C02's business
     acc.stratum("pipelines")
     root_calls = []
+    first = True
     for out, kw, _listed in c02.calls_for(spec, p0):
         deep = gen_dag.depth_of(spec, out) >= 2
-        for mode in ("plain", "dag"):
+        modes = ("plain", "dag", "after-aborted-dag") if first and deep else ("plain", "dag")
+        first = first and not deep
+        for mode in modes:
             acc.case((gen_dag._key(spec), str(out), tuple(sorted(kw)), mode) if deep else None)
             for sig, text in check_lazy(spec, out, kw, mode):
                 acc.violation(sig, {"spec": spec, "out": out, "kw": kw, "mode": mode}, text)
